@@ -1,8 +1,9 @@
 (* C15 - lemmas about the ANTEX model (Model/C15_Antex.v): regenerated table checks, ignorable lines, grids,
    the per-antenna cache machine (head, frequency sections, save_correction), whole files, text level
-   (with Proofs/C15_Lines.v), witnesses against the quirks, calendar. *)
+   (with Proofs/C15_Lines.v and Proofs/C15_Covers.v), FREQ RMS sections, witnesses against the quirks, calendar. *)
 From Coq Require Import ZArith QArith Qabs Qround List Bool String Ascii Lia.
-From Verif Require Import Lib.Dyadic Lib.Text Model.C15_Antex Model.C15_Wf Model.C15_Check Proofs.C15_Lines.
+From Verif Require Import Lib.Dyadic Lib.Text Model.C15_Antex Model.C15_Wf Gen.C15_AntexFields Model.C15_Check
+                          Proofs.C15_Lines Proofs.C15_Covers.
 Import ListNotations.
 Local Open Scope string_scope.
 
@@ -459,7 +460,7 @@ Proof.
   unfold sem_freq in SF. repeat (apply andb_prop in SF; destruct SF as [SF ?]).
   assert (Hkey : expected_key a = (if String.eqb (am_sat a) "" then am_type a else am_serial a,
                                    if negb (String.eqb (am_sat a) "") then
-                                     match dateval (am_from a) with Some (CT t) => Some t | _ => None end
+                                     match dateval (am_from a) with Some (CT t) => Some t | _ => Some min_us end
                                    else None)).
   { unfold expected_key, dateval. destruct (String.eqb (am_sat a) ""); cbn [negb]; [reflexivity|].
     destruct (am_from a); reflexivity. }
@@ -478,9 +479,9 @@ Proof.
                  | Some (CS x) => Ok x | Some _ => Err "TypeError" | None => Err "KeyError" end
                  = Ok (fst (expected_key a))).
   { rewrite Hkey. unfold is_sat. destruct (String.eqb (am_sat a) ""); cbn [negb fst]; [rewrite L1|rewrite L2]; reflexivity. }
-  rewrite Hant. cbn [bind]. rewrite Hcode. cbn [bind]. rewrite Hcnt, L9.
+  rewrite Hant. cbn [bind]. rewrite Hcode. cbn [bind]. rewrite Hcnt, L9. cbn [sat_from_required all_off].
   assert (Hk2 : (fst (expected_key a),
-                 if is_sat then match dateval (am_from a) with Some (CT t) => Some t | _ => None end else None)
+                 if is_sat then match dateval (am_from a) with Some (CT t) => Some t | _ => Some min_us end else None)
                 = expected_key a).
   { rewrite Hkey. cbn [fst]. reflexivity. }
   rewrite !Hk2.
@@ -488,10 +489,9 @@ Proof.
   { unfold d, old_entry. destruct fs as [|f0 fs0]; [rewrite Hd0; reflexivity|].
     rewrite (dget_app_none _ _ _ Hd0). reflexivity. }
   rewrite !Hold.
-  assert (Hunb : is_sat && match match dateval (am_from a) with Some (CT t) => Some t | _ => None end with
+  assert (Hunb : is_sat && match match dateval (am_from a) with Some (CT t) => Some t | _ => Some min_us end with
                            | Some _ => false | None => true end = false).
-  { unfold is_sat. destruct (String.eqb (am_sat a) ""); [reflexivity|]. cbn [orb negb andb] in *.
-    destruct (am_from a); [reflexivity|discriminate]. }
+  { destruct is_sat; [|reflexivity]. destruct (am_from a); reflexivity. }
   rewrite L5, L6, L7, L8, L10, L4, L1, Hn, He, Hu, Hnoazi, Hazi', Hunb.
   cbn [azi_accumulates all_off].
   destruct fs as [|f0 fs0].
@@ -499,7 +499,7 @@ Proof.
     cbn [List.length Z.of_nat Z.eqb andb old_entry empty_entry en_freqs assoc en_sat en_elev en_azim app map].
     unfold d. rewrite Hd0.
     assert (Hsat : (if is_sat
-                    then match match dateval (am_from a) with Some (CT t) => Some t | _ => None end with
+                    then match match dateval (am_from a) with Some (CT t) => Some t | _ => Some min_us end with
                          | Some _ =>
                              bind (Ok (am_cospar a)) (fun cospar : string =>
                              bind (Ok (am_type a)) (fun atype : string =>
@@ -509,8 +509,7 @@ Proof.
                          end
                     else Ok None) = Ok (en_sat (expected_entry a))).
     { unfold is_sat, expected_entry. cbn [en_sat]. destruct (String.eqb (am_sat a) ""); cbn [negb]; [reflexivity|].
-      cbn [orb] in *. destruct (am_from a); [|discriminate]. cbn [dateval option_map bind].
-      destruct (am_until a); reflexivity. }
+      destruct (am_from a); cbn [dateval option_map bind]; destruct (am_until a); reflexivity. }
     rewrite Hsat. cbn [bind].
     unfold entry_after, expected_entry. cbn [en_sat en_elev en_azim en_freqs map expected_freq fst snd fe_azi or_else].
     destruct (Qeq_bool (tokq (am_dzen a)) 0), (Qeq_bool (tokq (am_dazi a)) 0); cbn [bind or_else];
@@ -604,6 +603,37 @@ Proof.
     + exists c'. rewrite <- List.app_assoc in Hc'. exact Hc'.
 Qed.
 
+(* ------------------------------------------------------------------ FREQ RMS sections: cache only, no result *)
+Lemma rms_run q f c d rest :
+  wf_freq f = true -> sem_freq f = true ->
+  exists c', run_lexed q (c, d) (lex_rms f ++ rest)%list = run_lexed q (c', d) rest.
+Proof.
+  intros W S. unfold wf_freq in W. unfold sem_freq in S.
+  repeat (apply andb_prop in W; destruct W as [W ?]).
+  repeat (apply andb_prop in S; destruct S as [S ?]).
+  unfold lex_rms. rewrite <- !List.app_assoc. cbn [app].
+  rewrite (run_cons_ok _ _ _ _ _ (step_lexed_skip _ _)).
+  erewrite run_cons_ok by (apply step_upd_float, upd_float3; assumption).
+  erewrite run_cons_ok by (apply step_noazi; assumption).
+  change (map (fun r : string * list string => ev "parse_correction" [("values", fst r ++ render_values (snd r))]) (fm_rows f))
+    with (map row_ev (fm_rows f)).
+  rewrite rows_run by assumption.
+  cbn [app]. rewrite (run_cons_ok _ _ _ _ _ (step_lexed_skip _ _)).
+  eexists. reflexivity.
+Qed.
+
+Lemma rmss_run q d rest fs : forall c,
+  forallb wf_freq fs = true -> forallb sem_freq fs = true ->
+  exists c', run_lexed q (c, d) (List.concat (map lex_rms fs) ++ rest)%list = run_lexed q (c', d) rest.
+Proof.
+  induction fs as [|f r IH]; intros c W S.
+  - exists c. reflexivity.
+  - cbn [forallb] in W, S. apply andb_prop in W. destruct W as [Wf W]. apply andb_prop in S. destruct S as [Sf S].
+    cbn [map List.concat]. rewrite <- List.app_assoc.
+    destruct (rms_run q f c d (List.concat (map lex_rms r) ++ rest)%list Wf Sf) as [c1 H1].
+    destruct (IH c1 W S) as [c2 H2]. exists c2. rewrite H1. exact H2.
+Qed.
+
 (* ------------------------------------------------------------------ one antenna block, a whole file *)
 Lemma ant_run a d0 rest : good_ant a = true -> dget (expected_key a) d0 = None ->
   run_lexed all_off ([], d0) (lex_ant a ++ rest)%list
@@ -612,14 +642,23 @@ Proof.
   intros G Hd0. unfold good_ant in G. apply andb_prop in G. destruct G as [W SA].
   unfold lex_ant. rewrite <- !List.app_assoc. rewrite (head_run a d0 _ SA).
   destruct (c_head_lookups a) as (_ & _ & _ & _ & _ & _ & _ & _ & _ & _ & A & N).
-  assert (Wf : forallb wf_freq (am_freqs a) = true).
-  { unfold wf_ant in W. apply andb_prop in W. destruct W as [_ W]. exact W. }
-  pose proof SA as SA'. unfold sem_ant in SA'. repeat (apply andb_prop in SA'; destruct SA' as [SA' ?]).
-  destruct (freqs_run a d0 ([(None, true)] ++ rest)%list SA Hd0 (am_freqs a) [] (c_head a)) as [c' Hc']; try assumption.
+  assert (Wf : forallb wf_freq (am_freqs a) = true /\ forallb wf_freq (am_rms a) = true).
+  { unfold wf_ant in W. apply andb_prop in W. destruct W as [W W2]. apply andb_prop in W. destruct W as [_ W1]. split; assumption. }
+  destruct Wf as [Wf Wr].
+  assert (Sx : forallb sem_freq (am_freqs a) = true /\ forallb sem_freq (am_rms a) = true /\
+               nodupb (map fm_code (am_freqs a)) = true /\ am_freqs a <> []).
+  { pose proof SA as SA'. unfold sem_ant in SA'. repeat (apply andb_prop in SA'; destruct SA' as [SA' ?]).
+    repeat split; try assumption. intros E. rewrite E in *. discriminate. }
+  destruct Sx as (Sf & Sr & ND & NE).
+  set (tail := (List.concat (map lex_rms (am_rms a)) ++ [(None, true)] ++ rest)%list).
+  destruct (freqs_run a d0 tail SA Hd0 (am_freqs a) [] (c_head a)) as [c' Hc']; try assumption.
   - intros k _. reflexivity.
-  - change (data_after a d0 []) with d0 in Hc'. cbn [app] in Hc'. cbn [app]. etransitivity; [exact Hc'|].
-    cbn [run_lexed]. unfold step_lexed. cbn [fst snd bind].
-    unfold data_after. destruct (am_freqs a) eqn:E; [discriminate|]. rewrite <- E. reflexivity.
+  - change (data_after a d0 []) with d0 in Hc'. cbn [app] in Hc'. etransitivity; [exact Hc'|].
+    unfold tail.
+    destruct (rmss_run all_off (data_after a d0 (am_freqs a)) ([(None, true)] ++ rest)%list (am_rms a) c' Wr Sr) as [c2 H2].
+    etransitivity; [exact H2|].
+    cbn [app run_lexed]. unfold step_lexed. cbn [fst snd bind].
+    unfold data_after. destruct (am_freqs a) eqn:E; [congruence|]. rewrite <- E. reflexivity.
 Qed.
 
 Lemma akey_eqb_sym a b : akey_eqb a b = akey_eqb b a.
@@ -693,6 +732,36 @@ Proof.
   pose proof (roundtrip m G) as R. unfold parse in R. rewrite after_header_render in R. exact R.
 Qed.
 
+(* any table that covers the standard's reads rendered files like the standard's *)
+Lemma prelex_body_covers gen m : table_covers gen std_table = true -> forallb good_ant m = true ->
+  map (prelex gen) (render_body m) = map (prelex std_table) (render_body m).
+Proof.
+  intros C. unfold render_body. induction m as [|a r IH]; intros G; [reflexivity|].
+  cbn [forallb] in G. apply andb_prop in G. destruct G as [Ga G].
+  cbn [map List.concat]. rewrite !map_app, (IH G).
+  unfold good_ant in Ga. apply andb_prop in Ga. destruct Ga as [W _].
+  rewrite (prelex_covers gen a C W). reflexivity.
+Qed.
+
+Lemma reads_like_std q gen m : table_covers gen std_table = true -> good_file m = true ->
+  parse q gen (render_file m) = parse q std_table (render_file m).
+Proof.
+  intros C G. unfold good_file in G. apply andb_prop in G. destruct G as [G _].
+  unfold parse. rewrite after_header_render. unfold parse_body.
+  rewrite (prelex_body_covers gen m C G). reflexivity.
+Qed.
+
+Lemma fields_wf_covers : fields_wf = true -> table_covers antex_corr_table std_table = true.
+Proof.
+  unfold fields_wf. intros H. apply andb_prop in H. destruct H as [H _]. apply andb_prop in H. exact (proj1 H).
+Qed.
+
+Lemma roundtrip_gen m : good_file m = true -> parse all_off antex_corr_table (render_file m) = Ok (expected m).
+Proof.
+  intros G. rewrite (reads_like_std all_off antex_corr_table m (fields_wf_covers fields_wf_true) G).
+  exact (roundtrip m G).
+Qed.
+
 (* every frequency section of every antenna: exactly its own numbers *)
 Lemma frequency_sections m a f :
   good_file m = true -> In a m -> In f (am_freqs a) ->
@@ -759,8 +828,21 @@ Definition wf2 : freq_m := {| fm_code := "G02"; fm_north := "1.00"; fm_east := "
 Definition wa : ant_m := {| am_type := "BLOCK IIA"; am_serial := "G01"; am_sat := "G032"; am_cospar := "1992-079A";
   am_dazi := "180.0"; am_zen1 := "0.0"; am_zen2 := "0.1"; am_dzen := "0.1"; am_nfreq := "2";
   am_from := Some ["1992"; "11"; "22"; "0"; "0"; "0.0000000"];
-  am_until := Some ["2008"; "10"; "16"; "23"; "59"; "59.9999999"]; am_freqs := [wf1; wf2] |}.
+  am_until := Some ["2008"; "10"; "16"; "23"; "59"; "59.9999999"]; am_freqs := [wf1; wf2]; am_rms := [wf2] |}.
 Definition wfile : file_m := [wa].
+
+(* a satellite block without VALID FROM (and without VALID UNTIL), followed by a receiver antenna *)
+Definition wb : ant_m := {| am_type := "GALILEO-2"; am_serial := "E11"; am_sat := "E101"; am_cospar := "2011-060A";
+  am_dazi := "0.0"; am_zen1 := "0.0"; am_zen2 := "1.0"; am_dzen := "1.0"; am_nfreq := "1";
+  am_from := None; am_until := None;
+  am_freqs := [{| fm_code := "E01"; fm_north := "1.00"; fm_east := "-2.00"; fm_up := "3.50";
+                  fm_noazi := ["-0.70"; "+0.60"]; fm_rows := [] |}]; am_rms := [] |}.
+Definition wr : ant_m := {| am_type := "AERAT1675_120   SPKE"; am_serial := ""; am_sat := ""; am_cospar := "";
+  am_dazi := "0.0"; am_zen1 := "0.0"; am_zen2 := "5.0"; am_dzen := "5.0"; am_nfreq := "1";
+  am_from := None; am_until := None;
+  am_freqs := [{| fm_code := "G01"; fm_north := "-0.01"; fm_east := "+0.57"; fm_up := "+80.51";
+                  fm_noazi := ["+0.00"; "-0.07"]; fm_rows := [] |}]; am_rms := [] |}.
+Definition wfile2 : file_m := [wb; wr].
 
 Definition only (k : Z) : quirks := quirks_of_mask k.
 
@@ -782,6 +864,14 @@ Proof. split; [exact wfile_good|]. intros H. vm_compute in H. discriminate H. Qe
 Lemma count_float_refuted :
   good_file wfile = true /\ parse (only 8) std_table (render_file wfile) <> Ok (expected wfile).
 Proof. split; [exact wfile_good|]. intros H. vm_compute in H. discriminate H. Qed.
+
+Lemma wfile2_good : good_file wfile2 = true.
+Proof. vm_compute. reflexivity. Qed.
+
+Lemma sat_without_from_refuted :
+  good_file wfile2 = true /\ parse (only 16) std_table (render_file wfile2) = Err "UnboundLocalError"
+  /\ map fst (expected wfile2) = [("E11", Some min_us); ("AERAT1675_120   SPKE", None)].
+Proof. split; [exact wfile2_good|]. split; vm_compute; reflexivity. Qed.
 
 (* what exactly goes wrong in the witness *)
 Example witness_detail :
